@@ -192,8 +192,11 @@ Qed.
 Lemma xeqb_eq a b : xeqb a b = true -> a = b.
 Proof. destruct a, b; cbn; try discriminate; try reflexivity. intros H. apply qeq_true in H. now subst. Qed.
 
+Lemma xeqb_refl a : xeqb a a = true.
+Proof. destruct a; cbn; try reflexivity. now apply qeq_true. Qed.
+
 Lemma ord_laws : OrdLaws xltb xeqb.
-Proof. constructor; [exact xltb_irrefl|exact xltb_trans|exact xeqb_eq]. Qed.
+Proof. constructor; [exact xltb_irrefl|exact xltb_trans|exact xeqb_eq|exact xeqb_refl]. Qed.
 
 (* ------------------------------------------------------------------ *)
 (* The theorem, closed for this number structure: every positive rational
@@ -221,6 +224,20 @@ Section Closed.
     /\ forall real, xloss P' (xrun P' (xinit P') h') real = xloss P (xrun P (xinit P) h) real.
   Proof.
     intros Hl. exact (@l1d_scale_equivariant _ _ _ _ _ _ _ _ _ _ _ _ _ _ _ _ _ _ _ (laws kx ky Hkx Hky) ord_laws LF vec h Hl).
+  Qed.
+
+  (* all histories, tell_many's batch path included (this structure has no NaN) *)
+  Theorem l1d_scale_equivariant_rational_full (vec : bool) (h : list (op xq)) :
+    shaped vec h ->
+    let P' := sc_P (scl kx) P in
+    let h' := map (sc_op (scl kx) (scl ky)) h in
+    xrun P' (xinit P') h' = sc_st (scl kx) (scl ky) (xrun P (xinit P) h)
+    /\ xtrace P' (xinit P') h' = map (sc_out (scl kx)) (xtrace P (xinit P) h)
+    /\ forall real, xloss P' (xrun P' (xinit P') h') real = xloss P (xrun P (xinit P) h) real.
+  Proof.
+    intros Hl.
+    exact (@l1d_scale_equivariant_full _ _ _ _ _ _ _ _ _ _ _ _ _ _ _ _ _ _ _ (laws kx ky Hkx Hky) ord_laws LF vec
+             (fun _ => eq_refl) h Hl).
   Qed.
 End Closed.
 
